@@ -83,12 +83,10 @@ func (r *RedundantWhitespaceRule) Check(ctx *linter.Context) ([]linter.Violation
 				// Calculate actual column in original line
 				column := part.startCol + match[0] + 1 // 1-indexed
 
-				// Skip if this is at the beginning of line (indentation)
-				if part.startCol == 0 && match[0] == 0 {
-					// Check if it's leading whitespace on the line
-					if strings.TrimLeft(line[:column], " \t") == "" {
-						continue // Skip leading indentation
-					}
+				// Skip blanks that belong to the line's indentation (Fix preserves the whole
+				// leading whitespace, tabs followed by blanks included)
+				if strings.TrimLeft(line[:part.startCol+match[1]], " \t") == "" {
+					continue
 				}
 
 				violations = append(violations, linter.Violation{
